@@ -37,8 +37,9 @@ unsafe impl GlobalAlloc for TrackAlloc {
     unsafe fn alloc(&self, l: Layout) -> *mut u8 {
         note_alloc();
         let p = unsafe { System.alloc(l) };
-        if !p.is_null() {
+        if !p.is_null() && !cfg!(miri) {
             // deterministic garbage: a never-written result slot is recognised by its magic
+            // (under Miri the memory stays uninitialised, so that Miri itself reports the read)
             unsafe { std::ptr::write_bytes(p, 0xA5, l.size()) };
         }
         p
@@ -50,7 +51,7 @@ unsafe impl GlobalAlloc for TrackAlloc {
     unsafe fn realloc(&self, p: *mut u8, l: Layout, new: usize) -> *mut u8 {
         note_alloc();
         let q = unsafe { System.realloc(p, l, new) };
-        if !q.is_null() && new > l.size() {
+        if !q.is_null() && new > l.size() && !cfg!(miri) {
             unsafe { std::ptr::write_bytes(q.add(l.size()), 0xA5, new - l.size()) };
         }
         q
@@ -361,7 +362,8 @@ impl World {
             },
             closure_calls: Vec::new(),
             blocks: Vec::new(),
-            defer_free: true,
+            // under Miri the real free happens, so that Miri sees a use after it
+            defer_free: !cfg!(miri),
             vtable_calls: 0,
             log: Vec::new(),
             log_on: false,
